@@ -479,9 +479,23 @@ for _py, _params, _res, _thm in [
                  'cls': BUFFERED_SOCKET, 'params': _params, 'result': _res, 'tie_theorem': _thm,
                  'translator': 'py2lean_c12', 'py': _py, 'method': True, 'kind': 'function', 'raises': True})
 
+# boltons.iterutils.backoff_iter / backoff (round 3d, C15): GENERATORS OVER AN ABSTRACT NUMBER CARRIER, translated by
+# harness/py2lean_c15.py (notes/SRCTIE.md section 2d).  Type `A` = a Python float = a value of the type parameter `α`
+# with the operations C15/Model.lean is polymorphic over (order, `==`, `*`, `-`, unary minus, 0, 1; `float()` of a
+# carrier value is the identity); `Count` = `None` | str | int (`PyRtC15.CountV`); `random.random()` = the scripted
+# draw list `rnd : Nat -> α`.  The generated definitions go to Generated/Src_iterutils_backoff.lean (namespace
+# Src.iterutils; C09's chunk_ranges stays in Src_iterutils.lean).  Default parameter values are not translated.
+_C15 = [
+    {'module': 'boltons.iterutils', 'qualname': 'backoff_iter', 'lean_name': 'backoff_iter', 'kind': 'generator',
+     'params': {'start': 'A', 'stop': 'A', 'count': 'Count', 'factor': 'A', 'jitter': 'A'}, 'result': 'A',
+     'gen_file': 'iterutils_backoff', 'translator': 'py2lean_c15', 'raises': True,
+     'tie_theorem': 'C15.src_backoff_iter_eq_model'},
+]
+
 SPECS = {
     'C14': _C14,
     'C12': _C12,
+    'C15': _C15,
     'C18': _MFR + _SB,
     'C13': _FB,
     'C01': _OMD,
